@@ -140,6 +140,9 @@ func c18Expect(c *c18Case, sim *c18Sim) *c18Exp {
 		return &c18Exp{Kind: "block", Phase: ph, Why: "rule", Action: ru.Action, Status: c18RuleStatus(ru), Location: ru.URL}
 	}
 	atLimit := ""
+	if cfg.CtlEngineDO {
+		return &c18Exp{Kind: "pass"}
+	}
 	// phase 1
 	if ru := cfg.rule(1); ru != nil && c18HasTok(rq.Blk, 1) {
 		return block(1, ru)
